@@ -202,6 +202,8 @@ func (g *Gen) specType(name string, pkg *types.Package) (*Sort, types.Type) {
 		return sInt, nil
 	case "Ptr":
 		return sPtr, nil
+	case "Iface":
+		return sIface, nil
 	case "Time":
 		return sInt, nil
 	case "error":
@@ -232,6 +234,9 @@ func (g *Gen) coerceToSpecType(v Val, tname string) Val {
 	s, t := g.specType(tname, pkg)
 	if v.untyped() {
 		return g.coerce(v, s, t)
+	}
+	if v.T == "$nil" {
+		return g.nilOf(Val{S: s, G: t})
 	}
 	v.G = t
 	return v
@@ -295,15 +300,15 @@ func (e *SpecEnv) evalIdent(name string) Val {
 			}
 		}
 	}
+	if name == "now" {
+		if v, ok := e.st.ghosts["$now"]; ok {
+			return v
+		}
+	}
 	// package scope
 	if pkg := e.pkg(); pkg != nil {
 		if o := pkg.Scope().Lookup(name); o != nil {
 			return e.objVal(o)
-		}
-	}
-	if name == "now" {
-		if v, ok := e.st.ghosts["$now"]; ok {
-			return v
 		}
 	}
 	g.errorf("spec: unknown identifier %q", name)
